@@ -75,8 +75,15 @@ func main() {
 			}
 		},
 	})
-	l1.RunManyFilter(r.Seed, r.Pick(30, 400), r.Pick(12, 200), r.Pick(10, 120), l1.FilterCallbacks{
-		OnStep: func(fs *l1.FilterSession, st *l1.StepObs) { obs(fs.Session, st, "flt") },
+	r.Rule("family twostage (checkpointed filter-header sync starting from a PARTIALLY STORED interval): stage 1 syncs a chain of PreLen blocks completely (filter tip = PreLen: 20-900, 1000+x, 2000+x, sometimes exactly on a checkpoint), stage 2 lets the honest chain end 1000-2500 blocks higher (sometimes forking 1-30 blocks below the stage-1 tip: committed blocks are disconnected first), syncs the block headers and continues the filter rounds, so the first checkpointed batch overlaps headers already stored; honest / lying / truncating / silent peers, growth and reorganisations mixed in; plus a few sessions of family truncbatch (peers answering a batched getcfheaders with a truncated batch). The first plans of each list are seed-independent (332 -> 1500; 1007 -> 3100; 600 forked by 5 -> 3050). Same per-step oracle: every connected event carries the header and the height of a newly committed block, in increasing height order, after the commitment is stored")
+	filterCbs := l1.FilterCallbacks{
+		OnStep: func(fs *l1.FilterSession, st *l1.StepObs) {
+			class := "flt"
+			if fs.Plan.PreLen > 0 {
+				class = "flt2"
+			}
+			obs(fs.Session, st, class)
+		},
 		OnStoreErr: func(fs *l1.FilterSession, st *l1.StepObs, err error) {
 			r.Inconclusive("store-unreadable (reported by C03)")
 		},
@@ -92,8 +99,34 @@ func main() {
 			if fs != nil && fs.Session != nil && len(fs.Steps) > 0 {
 				r.Sample(map[string]any{"plan": fs.Plan, "script_tail": tail(fs.Steps, 6)})
 			}
+			if fs == nil || fs.Session == nil {
+				return
+			}
+			if fs.Plan.PreLen > 0 {
+				r.Count("twostage_sessions", 1)
+				if fs.Stage2Lag >= 1000 && fs.Stage1Tip == fs.Plan.PreLen {
+					r.Count("twostage_sessions_synced_then_at_least_one_interval_behind", 1)
+				}
+			}
+			if fs.PartialCheckpointed > 0 {
+				r.Count("checkpointed_rounds_starting_from_partially_stored_interval", int64(fs.PartialCheckpointed))
+				r.Count("connected_events_in_those_rounds", int64(fs.PartialCheckpointedEvents))
+				r.Mark("checkpointed-from-partial-interval|" + fs.Plan.Family)
+			}
+			if all, _ := fs.TruncatedServed(); all > 0 {
+				r.Count("truncated_cfheaders_batches_served", int64(all))
+			}
+			if l1.TwoStageFixedIndex(fs.Plan) >= 0 {
+				if fs.PartialCheckpointed == 0 {
+					r.Inconclusive("twostage-fixed-plan-did-not-reach-a-checkpointed-round-from-a-partial-interval")
+				} else {
+					r.Count("twostage_fixed_plans_reaching_a_checkpointed_round_from_a_partial_interval", 1)
+				}
+			}
 		},
-	})
+	}
+	l1.RunManyFilter(r.Seed, r.Pick(30, 400), r.Pick(12, 200), r.Pick(10, 120), filterCbs)
+	l1.RunCatchUpFilter(r.Seed, r.Pick(2, 40), r.Pick(7, 160), filterCbs)
 	// L2 part: real block subscriptions on the complete client (subscription
 	// manager on top of the block manager) while the honest chain grows and
 	// reorganises; each subscriber replays backlog + events and must hold the
